@@ -1,4 +1,5 @@
 import Qats.Lemmas.EstMain
+import Qats.Lemmas.EstMsm
 /-!
 # C16 — estimators are equivariant, moment-exact and consistent; minima mirror maxima
 
@@ -91,5 +92,17 @@ theorem min_mirror_lse (z : List ℝ) (loc scale : ℝ) (hs : 0 < scale) :
     gumbelMinLseRes loc scale z = ((gumbelLseRes (-loc) scale ((z.map fun x => -x).reverse)).map fun r => -r).reverse :=
   min_mirror_lse' z loc scale hs
 
+
+/-- Weibull method of moments: the coefficient of skewness handed to the root search is invariant under positive affine
+maps of the sample (so the same shape solves the skewness equation) … -/
+theorem sampleSkew_affine (xs : List ℝ) (a b : ℝ) (ha : 0 < a) (hn : xs ≠ []) :
+    sampleSkew (xs.map fun x => a * x + b) = sampleSkew xs :=
+  sampleSkew_affine' xs a b ha hn
+
+/-- … and, given that shape, location and scale are equivariant. -/
+theorem weibullMsmGiven_equivariant (c : ℝ) (xs : List ℝ) (a b : ℝ) (ha : 0 < a) (hn : xs ≠ []) :
+    weibullMsmGiven c (xs.map fun x => a * x + b) =
+      (a * (weibullMsmGiven c xs).1 + b, a * (weibullMsmGiven c xs).2.1, c) :=
+  weibullMsmGiven_equivariant' c xs a b ha hn
 
 end Qats.Props.C16
